@@ -36,6 +36,14 @@ func DetectDeviceConfigChanges(ctx context.Context) <-chan bool {
 			err = watcher.Add(path)
 		}
 
+		// the watcher reports its errors (e.g. an overflow of the kernel's event queue after a burst of writes) on a channel
+		// of its own and stops delivering events until somebody takes them
+		go func() {
+			for err := range watcher.Errors {
+				log.Info(fmt.Sprintf("config watcher: %v", err), logger.Debug)
+			}
+		}()
+
 		for event := range watcher.Events {
 			if event.Op != fsnotify.Write {
 				continue
